@@ -155,9 +155,12 @@ EndClauses(e) ==
    <<"C02_UniformAllDecide", Cfg.uniform => (e.reason = "done" /\ \A p \in parts : p.decided = e.insts)>>,
    \* C06: after stabilisation every started honest participant decides within the round bound
    <<"C06_DecidesWithinBound",
-      \* "stalled": the driver cut the run because, long after stabilisation, a started live participant had not moved for 150 round lengths
-      (e.gst > 0 /\ e.gstpassed /\ e.reason # "maxsteps") =>
-         \A p \in parts : (p.started /\ ~p.crashed) => (p.decided = e.insts /\ e.reason = "done" /\ p.maxround <= gmax + bound)>>,
+      \* "stalled": the driver cut the run because, long after stabilisation, a started live participant had not moved for 150 round lengths.
+      \* Moving beyond the round bound is a violation whatever ended the run; being undecided is one unless the step budget of the driver ran out.
+      (e.gst > 0 /\ e.gstpassed) =>
+         \A p \in parts : (p.started /\ ~p.crashed) =>
+            /\ p.maxround <= gmax + bound
+            /\ (e.reason # "maxsteps" => (p.decided = e.insts /\ e.reason = "done"))>>,
    <<"Conf_RunBudget", e.reason # "maxsteps" \/ e.gst = 0>>}
 
 \* ------------------------------------------------------------------ the step
